@@ -21,7 +21,7 @@ for d in sorted(glob.glob(os.path.join(V, "seeded", "*"))):
     others = [k for k, v in cross.items() if v and k != m["property"]]
     hist = m.get("detection_history", "")
     rows.append((sid, m["property"], (m.get("title") or "")[:110], (m.get("needs_to_manifest") or "")[:160],
-                 "yes" if caught else "NO", clauses, ", ".join(others), hist))
+                 "yes" if m["property"] in caught else ("no (caught by " + ", ".join(caught) + ")" if caught else "NO"), clauses, ", ".join(others), hist))
 print("| id | prop | change | needs to manifest | caught by own check | clause(s) | also caught by | note |")
 print("|---|---|---|---|---|---|---|---|")
 for r in rows:
